@@ -20,7 +20,7 @@ RULE = ("random call histories (length 2-12, with repeats) of {expand_macros (+p
         "contracts on. non-trivial = history of >= 3 calls with >= 2 different functions; distinct = (program, history)")
 ASSUMPTIONS = ["fingerprint = types, __dict__ contents, container order and aliasing structure of everything reachable from the argument",
                "mutating an *output* and seeing the input change is an observation, not a violation (the docstrings allow sharing)"]
-TIERS = {"quick": {"shards": 8, "budget_s": 110}, "thorough": {"shards": 16, "budget_s": 420}}
+TIERS = {"quick": {"shards": 8, "budget_s": 220}, "thorough": {"shards": 16, "budget_s": 420}}
 REQUIRE = {"circuits-with-a-branch-statement": 150, "op:used_qubits": 300, "native:partial": 50, "op:expand_subcircuits_custom": 100, "histories": 500, "calls": 4000, "contract-evaluations": 4000, "results-compared-with-fresh": 4000,
            "op:run": 200, "op:parse_output": 200, "op:unit_timing": 200, "chained-calls": 300}
 
